@@ -81,6 +81,7 @@ inline constexpr void convert_type_fundamental(T_To& to,
         // Eg: int64_t from uint32_t
       }
     }
+    RLBOX_VERIF_POINT("convert_type_fundamental before cast", &from, sizeof(from));
     to = static_cast<T_To>(from);
   }
   else
